@@ -289,7 +289,7 @@ def build (p : Program) : Except Panic (Program × GlobalTable) :=
     match tblLookup table "main".toList with
     | some (.procedure m) =>
       if !m.parameters.isEmpty then
-        .ok ({ decls := decls', info := p.info.add ⟨m.name.info.range, .MainMustNotHaveParameters⟩ }, table)
+        .ok ({ decls := decls', info := p.info.add ⟨m.name.info.range.shift m.range.lo, .MainMustNotHaveParameters⟩ }, table)
       else .ok ({ p with decls := decls' }, table)
     | some (.type _) => .error ⟨"'main' must be a procedure"⟩
     | none => .ok ({ decls := decls', info := p.info.add ⟨⟨0, 0⟩, .MainIsMissing⟩ }, table)
@@ -346,7 +346,15 @@ mutual
   def analyzeExpr (sc : Scope) : Expr → Except Panic (Expr × Option DataType)
     | .intLit l => .ok (.intLit l, some .int)
     | .var v => (analyzeVar sc v).map (fun (v', t) => (.var v', t))
-    | .unary op e i => (analyzeExpr sc e).map (fun (e', t) => (.unary op e' i, t))
+    | .unary op e i =>
+      match analyzeExpr sc e with
+      | .error p => .error p
+      | .ok (e', t) =>
+        let i' := match t with
+          | some .int => i
+          | some _ => i.add ⟨i.range, .ArithmeticOperatorNonInteger⟩
+          | none => i
+        .ok (.unary op e' i', some .int)
     | .bracketed e i => (analyzeExpr sc e).map (fun (e', t) => (.bracketed e' i, t))
     | .error i => .ok (.error i, none)
     | .binary op l r i =>
@@ -531,9 +539,18 @@ def tokenRangeToText (toks : Array Token) (r : Range) : Except Panic Range :=
     | _, _ => .error ⟨"slice"⟩
 
 /-- `impl ErrorContainer for AnalyzedSource`: all diagnostics with byte ranges. -/
+def convErrs (toks : Array Token) : List SplError → Except Panic (List SplError)
+  | [] => .ok []
+  | e :: es =>
+    match tokenRangeToText toks e.range with
+    | .error p => .error p
+    | .ok r =>
+      match convErrs toks es with
+      | .error p => .error p
+      | .ok rest => .ok ({ e with range := r } :: rest)
+
 def AnalyzedSource.errors (d : AnalyzedSource) : Except Panic (List SplError) :=
-  let toks := d.tokens.toArray
-  d.ast.errors.mapM (fun e => (tokenRangeToText toks e.range).map (fun r => { e with range := r }))
+  convErrs d.tokens.toArray d.ast.errors
 
 end Spl
 
